@@ -154,8 +154,74 @@ class C06Sim(calsim.CalSim):
                         f"{'raised ' + type(raised).__name__ if raised else 'returned normally'}): a later restore succeeds with a state that is neither the "
                         f"previous nor the new checkpoint; vs new: {deep_diff(got, new_state)[:2]}; vs previous: "
                         f"{deep_diff(got, old_state)[:2] if old_state is not None else '(none)'}")
-        self.fault_points = list(dry.labels)
         self.files_order = [o[1] for o in ops if o[0] == "trunc"] + [n for n in rec.opened if n == "series_samp.h5"]
+        self.fault_points = list(dry.labels)
+        if scn.get("strace"):
+            self.real_kills(F, old_files, old_state, new_state)
+
+    def real_kills(self, F, old_files, old_state, new_state):  # noqa: N803
+        """Validation against real process death: an unmodified interpreter performing the same save is SIGKILLed by
+        strace at every write syscall that targets the checkpoint folder; each resulting folder is classified."""
+        import re
+        import subprocess
+        import sys
+        from pathlib import Path
+
+        from sim.core import HOME
+        res, scn = self.res, self.scn
+        if shutil.which("strace") is None:
+            res.stats["strace-not-available"] += 1
+            return
+        staging = self.new_folder("staging")
+        self.cal.create_checkpoint(staging)
+        m = self.cfg["model"]
+        cmd = [sys.executable, str(HOME / "sim" / "strace_save.py"), staging, F, m["kind"], str(m["D"]), str(m.get("extreme", 0.0))]
+        trace = str(Path(self.scratch) / "strace.out")
+
+        def reset():
+            if old_files:
+                materialise(old_files, F)
+            else:
+                shutil.rmtree(F, ignore_errors=True)
+        reset()
+        subprocess.run(["strace", "-f", "-y", "-o", trace, "-e", "trace=write,pwrite64", *cmd], capture_output=True, timeout=300)
+        lines = [ln for ln in Path(trace).read_text().splitlines() if re.search(r"\b(write|pwrite64)\(", ln) and "resumed" not in ln]
+        # strace counts 'when=k' per tracee: index the write syscalls of the process that writes the folder
+        pids = {ln.split()[0] for ln in lines if F in ln}
+        if len(pids) != 1:
+            raise RuntimeError(f"expected one process writing the folder, saw {pids}")
+        lines = [ln for ln in lines if ln.split()[0] in pids]
+        hits = []
+        count = {"write": 0, "pwrite64": 0}
+        for ln in lines:
+            name = "pwrite64" if "pwrite64(" in ln else "write"
+            count[name] += 1
+            if F in ln:
+                hits.append((name, count[name]))        # the k-th invocation of that syscall by that process
+        if not hits or deep_diff(state_of(F, self.model), new_state):
+            raise RuntimeError(f"strace dry run did not reproduce the save ({len(hits)} write syscalls on the folder)")
+        for name, k in hits:
+            reset()
+            p = subprocess.run(["strace", "-f", "-o", "/dev/null", "-e", f"trace={name}", "-e", f"inject={name}:signal=SIGKILL:when={k}", *cmd],
+                               capture_output=True, timeout=300)
+            if p.returncode not in (-9, 137):
+                raise RuntimeError(f"strace injection at {name} #{k} did not kill the process (exit {p.returncode})")
+            res.stats["real-kill(strace SIGKILL at a write syscall)"] += 1
+            try:
+                got = state_of(F, self.model)
+            except BaseException as e:  # noqa: BLE001
+                if isinstance(e, (KeyboardInterrupt, SystemExit)):
+                    raise
+                res.stats["real-kill-state:error"] += 1
+                continue
+            if not deep_diff(got, new_state):
+                res.stats["real-kill-state:new"] += 1
+            elif old_state is not None and not deep_diff(got, old_state):
+                res.stats["real-kill-state:old"] += 1
+            else:
+                res.add("hybrid-restore", "json-backend:real-kill", f"real process killed (SIGKILL via strace) at {name} syscall #{k} of the saving process: restore succeeds "
+                                                                    f"with a state that is neither the previous nor the new checkpoint: {deep_diff(got, new_state)[:2]}")
+        self.outcomes[("checked", "real-kill", "strace")] = len(hits)
 
 
 def sqlite_args(cal, folder):
@@ -332,6 +398,9 @@ class C06(Check):
                "prestate": rng.choice(["none", "same-run", "same-run", "other-run"] if backend == "json" else ["none", "same-run", "same-run"]),
                "byte_step": 7 if tier == "quick" else 1, "sim_seed": rng.randrange(2 ** 31), "big": big}
         if big:
+            scn["prestate"] = "same-run"
+        if backend == "json" and (i % 40 == 5 if tier == "thorough" else i == 5):
+            scn["strace"] = True      # confirmation against real SIGKILLs (one scenario per 40; one per quick run)
             scn["prestate"] = "same-run"
         if scn["prestate"] == "other-run":
             oc = copy.deepcopy(cfg)
